@@ -67,3 +67,132 @@ package keeper
 //@ callsite ConvertCoin [message] msg.Coin.Denom == denom && msg.Coin.Amount == transferAmount && msg.Sender == receiver.String() && msg.Receiver == common.BytesToAddress(receiver.Bytes()).Hex()
 //@ callsite ConvertCoin [denom-from-dest-port] denom == first(types.IBCDenom(packet.DestinationPort, packet.DestinationChannel, data.Denom))
 //@ callsite ConvertCoin [amount-from-packet]   transferAmount == first(sdk.NewIntFromString(data.Amount)) && receiver == first(sdk.AccAddressFromBech32(data.Receiver))
+
+// ---- token-pair registry (C12) --------------------------------------------------------------------
+// Three index families in the aggregate store: pairs (prefix 1 | id -> pair), byERC20 (prefix 2 | address -> id),
+// byDenom (prefix 3 | denom -> id). id = tmhash(address | "|" | denoms[0]).
+// verif:import tmhash github.com/tendermint/tendermint/crypto/tmhash
+// verif:spec pbmarshal_TokenPair(p types.TokenPair) []byte
+// verif:spec pbunmarshal_TokenPair(bz []byte) types.TokenPair
+// verif:pred pairKey(id)    := append(types.KeyPrefixTokenPair, id...)
+// verif:pred erc20Key(addr) := append(types.KeyPrefixTokenPairByERC20, addr.Bytes()...)
+// verif:pred denomKey(d)    := append(types.KeyPrefixTokenPairByDenom, []byte(d)...)
+
+// verif:func (Keeper).SetTokenPair
+//@ modifies aggregate(ctx)
+//@ ensures [set] aggregate(ctx) == kvset(old(aggregate(ctx)), pairKey(tokenPair.GetID()), pbmarshal_TokenPair(tokenPair))
+
+// verif:func (Keeper).SetDenomMap
+//@ requires id != nil
+//@ modifies aggregate(ctx)
+//@ ensures [set] aggregate(ctx) == kvset(old(aggregate(ctx)), denomKey(denom), id)
+
+// verif:func (Keeper).SetERC20Map
+//@ requires id != nil
+//@ modifies aggregate(ctx)
+//@ ensures [set] aggregate(ctx) == kvset(old(aggregate(ctx)), erc20Key(erc20), id)
+
+// verif:func (Keeper).deleteDenomMap
+//@ modifies aggregate(ctx)
+//@ ensures [del] aggregate(ctx) == kvdel(old(aggregate(ctx)), denomKey(denom))
+
+// verif:func (Keeper).deleteERC20Map
+//@ modifies aggregate(ctx)
+//@ ensures [del] aggregate(ctx) == kvdel(old(aggregate(ctx)), erc20Key(erc20))
+
+// verif:func (Keeper).deleteTokenPair
+//@ modifies aggregate(ctx)
+//@ ensures [del] aggregate(ctx) == kvdel(old(aggregate(ctx)), pairKey(id))
+
+// verif:func (Keeper).IsDenomRegistered
+//@ ensures [has] result == kvhas(aggregate(ctx), denomKey(denom))
+
+// verif:func (Keeper).IsERC20Registered
+//@ ensures [has] result == kvhas(aggregate(ctx), erc20Key(erc20))
+
+// verif:func (Keeper).GetERC20Map
+//@ ensures [get] result == kvget(aggregate(ctx), erc20Key(erc20))
+
+// verif:func (Keeper).GetDenomMap
+//@ ensures [get] result == kvget(aggregate(ctx), denomKey(denom))
+
+// verif:func (Keeper).GetTokenPair
+//@ ensures [found] result1 ==> id != nil && kvhas(aggregate(ctx), pairKey(id))
+//@ ensures [value] result1 ==> result == pbunmarshal_TokenPair(kvget(aggregate(ctx), pairKey(id)))
+
+// verif:func (Keeper).SetDenomsMap
+//@ requires id != nil
+//@ modifies aggregate(ctx)
+//@ loop 1 invariant [so-far] forall j int :: 0 <= j && j < idx1 ==> kvget(aggregate(ctx), denomKey(denoms[j])) == id
+//@ loop 1 invariant [frame]  forall k Bytes :: (forall j int :: 0 <= j && j < len(denoms) ==> k != denomKey(denoms[j])) ==> kvget(aggregate(ctx), k) == old(kvget(aggregate(ctx), k))
+//@ ensures [all-indexed] forall j int :: 0 <= j && j < len(denoms) ==> kvget(aggregate(ctx), denomKey(denoms[j])) == id
+//@ ensures [frame]       forall k Bytes :: (forall j int :: 0 <= j && j < len(denoms) ==> k != denomKey(denoms[j])) ==> kvget(aggregate(ctx), k) == old(kvget(aggregate(ctx), k))
+
+// DeleteTokenPair removes the pair and every index entry that points to it, and nothing else.
+// verif:func (Keeper).DeleteTokenPair
+//@ modifies aggregate(ctx)
+//@ loop 1 invariant [so-far] forall j int :: 0 <= j && j < idx1 ==> !kvhas(aggregate(ctx), denomKey(tokenPair.Denoms[j]))
+//@ loop 1 invariant [others] !kvhas(aggregate(ctx), pairKey(tokenPair.GetID())) && !kvhas(aggregate(ctx), erc20Key(tokenPair.GetERC20Contract()))
+//@ loop 1 invariant [frame]  forall k Bytes :: k != pairKey(tokenPair.GetID()) && k != erc20Key(tokenPair.GetERC20Contract()) && (forall j int :: 0 <= j && j < len(tokenPair.Denoms) ==> k != denomKey(tokenPair.Denoms[j])) ==> kvget(aggregate(ctx), k) == old(kvget(aggregate(ctx), k))
+//@ ensures [pair-removed]   !kvhas(aggregate(ctx), pairKey(tokenPair.GetID()))
+//@ ensures [erc20-removed]  !kvhas(aggregate(ctx), erc20Key(tokenPair.GetERC20Contract()))
+//@ ensures [denoms-removed] forall j int :: 0 <= j && j < len(tokenPair.Denoms) ==> !kvhas(aggregate(ctx), denomKey(tokenPair.Denoms[j]))
+//@ ensures [frame]          forall k Bytes :: k != pairKey(tokenPair.GetID()) && k != erc20Key(tokenPair.GetERC20Contract()) && (forall j int :: 0 <= j && j < len(tokenPair.Denoms) ==> k != denomKey(tokenPair.Denoms[j])) ==> kvget(aggregate(ctx), k) == old(kvget(aggregate(ctx), k))
+
+// ---- governance operations on the registry (C12) ---------------------------------------------------
+// verif:import banktypes github.com/cosmos/cosmos-sdk/x/bank/types
+// verif:pred registered(m, p) := kvget(m, pairKey(p.GetID())) == pbmarshal_TokenPair(p) && kvget(m, erc20Key(p.GetERC20Contract())) == p.GetID() && (forall j int :: 0 <= j && j < len(p.Denoms) ==> kvget(m, denomKey(p.Denoms[j])) == p.GetID())
+
+// Note: RegisterCoin/AddCoin check IsDenomRegistered(coinMetadata.Name) but index coinMetadata.Base. "The base
+// denomination is not yet registered" is nevertheless not claimed as a postcondition: it holds on this tree only
+// because verifyMetadata rejects every coin that already has bank metadata (EqualMetadata compares the
+// *DenomUnit pointers), and every registered denomination has bank metadata - a cross-module fact no contract
+// here establishes. See /verif/DESIGN.md section 10, #13.
+// verif:func (Keeper).RegisterCoin
+//@ modifies world(ctx)
+//@ ensures [reg-pair]     result1 == nil ==> kvget(aggregate(ctx), pairKey(result.GetID())) == pbmarshal_TokenPair(*result)
+//@ ensures [reg-erc20]    result1 == nil ==> kvget(aggregate(ctx), erc20Key(result.GetERC20Contract())) == result.GetID()
+//@ ensures [reg-denoms]   result1 == nil ==> forall j int :: 0 <= j && j < len(result.Denoms) ==> kvget(aggregate(ctx), denomKey(result.Denoms[j])) == result.GetID()
+//@ ensures [one-denom]    result1 == nil ==> len(result.Denoms) == 1 && result.Denoms[0] == coinMetadata.Base
+//@ ensures [only-its-entries] result1 == nil ==> forall k Bytes :: k != pairKey(result.GetID()) && k != erc20Key(result.GetERC20Contract()) && k != denomKey(coinMetadata.Base) ==> kvget(aggregate(ctx), k) == old(kvget(aggregate(ctx), k))
+//@ ensures [reject-clean-registry] result1 != nil ==> aggregate(ctx) == old(aggregate(ctx))
+
+// verif:func (Keeper).AddCoin
+//@ requires [registry-inv] idsConsistent(aggregate(ctx))
+//@ modifies world(ctx)
+//@ let pold = pbunmarshal_TokenPair(kvget(old(aggregate(ctx)), pairKey(kvget(old(aggregate(ctx)), erc20Key(common.HexToAddress(contractAddr))))))
+//@ ensures [same-id]      result1 == nil ==> result.GetID() == kvget(old(aggregate(ctx)), erc20Key(common.HexToAddress(contractAddr))) && result.ERC20Address == pold.ERC20Address
+//@ ensures [indexed]      result1 == nil ==> kvget(aggregate(ctx), pairKey(result.GetID())) == pbmarshal_TokenPair(*result) && kvget(aggregate(ctx), denomKey(coinMetadata.Base)) == result.GetID()
+//@ ensures [only-its-entries] result1 == nil ==> forall k Bytes :: k != pairKey(result.GetID()) && k != denomKey(coinMetadata.Base) ==> kvget(aggregate(ctx), k) == old(kvget(aggregate(ctx), k))
+//@ ensures [reject-clean-registry] result1 != nil ==> aggregate(ctx) == old(aggregate(ctx))
+
+// verif:func (Keeper).RegisterERC20
+//@ modifies world(ctx)
+//@ ensures [contract-unused] result1 == nil ==> !kvhas(old(aggregate(ctx)), erc20Key(contract))
+//@ ensures [denom-unused]    result1 == nil ==> !kvhas(old(aggregate(ctx)), denomKey(result.Denoms[0]))
+//@ ensures [reg-pair]     result1 == nil ==> kvget(aggregate(ctx), pairKey(result.GetID())) == pbmarshal_TokenPair(*result)
+//@ ensures [reg-erc20]    result1 == nil ==> kvget(aggregate(ctx), erc20Key(result.GetERC20Contract())) == result.GetID()
+//@ ensures [reg-denoms]   result1 == nil ==> forall j int :: 0 <= j && j < len(result.Denoms) ==> kvget(aggregate(ctx), denomKey(result.Denoms[j])) == result.GetID()
+//@ ensures [one-denom]    result1 == nil ==> len(result.Denoms) == 1 && result.ERC20Address == contract.String()
+//@ ensures [reject-clean-registry] result1 != nil ==> aggregate(ctx) == old(aggregate(ctx))
+
+// idsConsistent: every stored pair sits under its own id (part of the registry invariant; preserved by every
+// writer because pairs are only ever stored by SetTokenPair under pair.GetID()).
+// verif:pred idsConsistent(m) := forall id Bytes :: kvhas(m, pairKey(id)) ==> pbunmarshal_TokenPair(kvget(m, pairKey(id))).GetID() == id
+// verif:func (Keeper).ToggleRelay
+//@ requires [registry-inv] idsConsistent(aggregate(ctx))
+//@ modifies aggregate(ctx)
+//@ ensures [only-the-pair-value] result1 == nil ==> aggregate(ctx) == kvset(old(aggregate(ctx)), pairKey(result.GetID()), pbmarshal_TokenPair(result)) && kvhas(old(aggregate(ctx)), pairKey(result.GetID()))
+//@ ensures [same-tokens]   result1 == nil ==> result.ERC20Address == pbunmarshal_TokenPair(kvget(old(aggregate(ctx)), pairKey(result.GetID()))).ERC20Address && result.Denoms == pbunmarshal_TokenPair(kvget(old(aggregate(ctx)), pairKey(result.GetID()))).Denoms
+//@ ensures [reject-clean]  result1 != nil ==> aggregate(ctx) == old(aggregate(ctx))
+
+// verif:func (Keeper).UpdateTokenPairERC20
+//@ requires [registry-inv] idsConsistent(aggregate(ctx))
+//@ modifies world(ctx)
+//@ let oldid = kvget(old(aggregate(ctx)), erc20Key(erc20Addr))
+//@ let pold  = pbunmarshal_TokenPair(kvget(old(aggregate(ctx)), pairKey(oldid)))
+//@ ensures [same-denoms]        result1 == nil ==> result.Denoms == pold.Denoms && result.GetERC20Contract() == newERC20Addr
+//@ ensures [pair-stored]        result1 == nil ==> kvget(aggregate(ctx), pairKey(result.GetID())) == pbmarshal_TokenPair(result)
+//@ ensures [new-address-indexed] result1 == nil ==> kvget(aggregate(ctx), erc20Key(newERC20Addr)) == result.GetID()
+//@ ensures [all-denoms-reindexed] result1 == nil ==> forall j int :: 0 <= j && j < len(result.Denoms) ==> kvget(aggregate(ctx), denomKey(result.Denoms[j])) == result.GetID()
+//@ ensures [reject-clean-registry] result1 != nil ==> aggregate(ctx) == old(aggregate(ctx))
